@@ -149,6 +149,9 @@ func (g *cgen) generate() *ConcProgram {
 	if g.chance("returninifshape", 8) {
 		return g.returnInGoroutineIfFrontier()
 	}
+	if g.chance("onceshape", 8) {
+		return g.onceByCounter()
+	}
 	independent := g.chance("independent", 55)
 	nthreads := 1 + g.pick("nthreads", 3)
 	useMachine := false
@@ -550,4 +553,44 @@ func (g *cgen) returnInGoroutineIfFrontier() *ConcProgram {
 		feats = append(feats, f)
 	}
 	return &ConcProgram{Src: "package main\n\nimport (\n\t\"sync\"\n)\n\n" + b.String(), Independent: true, Features: feats, Threads: 2, MayReject: true}
+}
+
+// onceByCounter: goroutines decide under the mutex who does a piece of work exactly once (an arrival
+// counter or a done flag), release the mutex as the first statement of BOTH branches of the if/else,
+// and the chosen one works afterwards. The condition reads the protected state, so it must be
+// evaluated before the release (seeded change C03-12: the common Unlock hoisted in front of the if).
+// The result does not depend on the schedule.
+func (g *cgen) onceByCounter() *ConcProgram {
+	g.feat("once-by-counter-unlock-in-both-branches")
+	var b strings.Builder
+	w := func(format string, a ...any) { fmt.Fprintf(&b, format, a...) }
+	k := 2
+	flag := g.chance("onceflag", 30)
+	last := g.chance("oncelast", 60)
+	w("func entry0() (uint64, uint64) {\n")
+	w("\tmu := new(sync.Mutex)\n\twg := new(sync.WaitGroup)\n\tvar arrived uint64\n\tvar work uint64\n\twg.Add(%d)\n", k)
+	if flag {
+		w("\tvar done bool\n")
+	}
+	for i := 0; i < k; i++ {
+		w("\tgo func() {\n\t\tmu.Lock()\n\t\tarrived = arrived + 1\n")
+		cond := fmt.Sprintf("arrived == %d", map[bool]int{true: k, false: 1}[last])
+		if flag {
+			g.feat("once-by-flag")
+			cond = "!done"
+			w("\t\tif %s {\n\t\t\tdone = true\n\t\t\tmu.Unlock()\n", cond)
+		} else {
+			w("\t\tif %s {\n\t\t\tmu.Unlock()\n", cond)
+		}
+		w("\t\t\tmu.Lock()\n\t\t\twork = work + %d\n\t\t\tmu.Unlock()\n", 10+i)
+		w("\t\t} else {\n\t\t\tmu.Unlock()\n\t\t}\n\t\twg.Done()\n\t}()\n")
+	}
+	w("\twg.Wait()\n\tmu.Lock()\n\tvar r0 uint64 = work\n\tr1 := arrived\n\tmu.Unlock()\n")
+	// which goroutine works depends on the schedule, how OFTEN work happens does not
+	w("\tif r0 >= 10 && r0 <= %d {\n\t\tr0 = 1\n\t}\n\treturn r0, r1\n}\n", 10+k-1)
+	var feats []string
+	for f := range g.feats {
+		feats = append(feats, f)
+	}
+	return &ConcProgram{Src: "package main\n\nimport (\n\t\"sync\"\n)\n\n" + b.String(), Independent: true, Features: feats, Threads: k + 1}
 }
